@@ -58,7 +58,8 @@ CancelOuts == {"cancel", "kbd", "sysexit", "nested"}
 (*  hasDefault, strat (classes with their own strategy), legacy (strategy  *)
 (*  names registered with the 3-argument signature), budget (tokens; None  *)
 (*  = no budget), handler, abort, rc (result classifier configured),       *)
-(*  bsleep (before_sleep configured), opname (operation= given)            *)
+(*  bsleep (before_sleep configured), opname (operation= given), hooks      *)
+(*  (on_attempt_start / on_attempt_end configured)                          *)
 (***************************************************************************)
 
 SInit(c) == [pc |-> IF c.maxAtt = 0 THEN "zeroexh" ELSE "top",
@@ -72,10 +73,15 @@ SInit(c) == [pc |-> IF c.maxAtt = 0 THEN "zeroexh" ELSE "top",
                                \* raised it first: "excsame" raises the same object again)
              cobj |-> None,    \* identity of the object describing the failure being processed
              stop |-> "-", bq |-> BudM!UInit, epoch |-> 0, sl |-> None,
-             dkind |-> "-", own |-> FALSE, abn |-> 0]
+             dkind |-> "-", own |-> FALSE, abn |-> 0,
+             mode |-> "-",      \* delivery style; fixed at the start when hooks are configured
+             absrc |-> "-",     \* where an abort came from: top | fail | retry | own | handler
+             adec |-> "-", astop |-> "-", acause |-> "-", asleep |-> None, anext |-> "-"]
+
+SInitM(c, md) == [SInit(c) EXCEPT !.mode = md]
 
 \* next run: everything is fresh except the shared budget; the clock has moved on
-SNewRun(c, s, gap) == [SInit(c) EXCEPT !.run = s.run + 1, !.bq = s.bq,
+SNewRun(c, s, gap) == [SInit(c) EXCEPT !.run = s.run + 1, !.bq = s.bq, !.mode = s.mode,
                                        !.epoch = s.epoch + s.now + gap]
 
 (***************************************************************************)
@@ -101,6 +107,9 @@ EvSleep(s, adv, t, t1) == [e |-> "sleep", s |-> s, us |-> s * 15625, adv |-> adv
 View(kind, id, ok, stop, attempts, lastk, cause, lexc, lres, next, own) ==
     [kind |-> kind, id |-> id, ok |-> ok, stop |-> stop, attempts |-> attempts, lastk |-> lastk,
      cause |-> cause, lexc |-> lexc, lres |-> lres, next |-> next, own |-> own]
+EvAStart(n, t) == [e |-> "astart", n |-> n, t |-> t]
+EvAEnd(n, dec, stop, cause, sleep, t) ==
+    [e |-> "aend", n |-> n, decision |-> dec, stop |-> stop, cause |-> cause, sleep |-> sleep, t |-> t]
 EvDeliver(mode, v, t, gap) == [e |-> "deliver", mode |-> mode, v |-> v, t |-> t, gap |-> gap]
 
 (***************************************************************************)
@@ -155,15 +164,32 @@ NotedFor(c, s, k, cause, ra) ==
         capped == c.lim[k] # None /\ s0.cnt[k] > c.lim[k]
     IN  IF k = "UNKNOWN" /\ ~capped THEN [s0 EXCEPT !.unk = @ + 1] ELSE s0
 
+\* on_attempt_end is called before the loop acts on the attempt's outcome
+ViaEnd(c, s1, dec, stop, cause, sleep, next) ==
+    IF c.hooks THEN [s1 EXCEPT !.pc = "aend", !.adec = dec, !.astop = stop, !.acause = cause,
+                               !.asleep = sleep, !.anext = next]
+    ELSE [s1 EXCEPT !.pc = next]
+
+AEnd(c, s) ==
+    IF s.pc = "aend" THEN
+        { <<EvAEnd(s.att, s.adec, s.astop, s.acause, s.asleep, s.now),
+            IF s.anext = "top" THEN [s EXCEPT !.pc = "top", !.att = @ + 1] ELSE [s EXCEPT !.pc = s.anext]>> }
+    ELSE {}
+
+AStart(c, s) ==
+    IF c.hooks /\ (s.pc = "astart" \/ (s.pc = "top" /\ ~c.abort)) THEN
+        { <<EvAStart(s.att, s.now), [s EXCEPT !.pc = "invoke"]>> }
+    ELSE {}
+
 PollTop(c, s) ==
     IF s.pc = "top" /\ c.abort THEN
         { <<EvPoll("top", a, s.now),
-            IF a THEN [s EXCEPT !.pc = "abortemit", !.abn = s.att - 1]
-                 ELSE [s EXCEPT !.pc = "invoke"]>> : a \in BOOLEAN }
+            IF a THEN [s EXCEPT !.pc = "abortemit", !.abn = s.att - 1, !.absrc = "top"]
+                 ELSE [s EXCEPT !.pc = IF c.hooks THEN "astart" ELSE "invoke"]>> : a \in BOOLEAN }
     ELSE {}
 
 Invoke(c, s) ==
-    IF (s.pc = "top" /\ ~c.abort) \/ s.pc = "invoke" THEN
+    IF (s.pc = "top" /\ ~c.abort /\ ~c.hooks) \/ s.pc = "invoke" THEN
         { <<EvInvoke(s.att, s.now, o.out, o.k, o.ra, d),
             LET obj == IF o.out = "excsame" /\ s.eobj # None THEN s.eobj ELSE s.att
                 s1 == [s EXCEPT !.now = s.now + d, !.ninv = s.att,
@@ -177,7 +203,10 @@ Invoke(c, s) ==
                         \* "excsame": the operation raises the very object it raised last time
                         [s1 EXCEPT !.pc = IF c.abort THEN "pollfail" ELSE "classify"]
                   [] o.out = "res"   -> [s1 EXCEPT !.pc = "rcl_res"]
-                  [] o.out = "abort" -> [s1 EXCEPT !.pc = "abortemit", !.abn = s.att, !.own = TRUE]
+                  [] o.out = "abort" ->
+                        \* _handle_abort_attempt_end, then handle_abort_in_call / _abort_outcome
+                        ViaEnd(c, [s1 EXCEPT !.abn = s.att, !.own = TRUE, !.absrc = "own"],
+                               "aborted", "ABORTED", "-", None, "abortemit")
                   [] o.out \in CancelOuts -> [s1 EXCEPT !.pc = "deliver", !.dkind = "cancel"]>>
           : o \in {x \in Outs : x.out = "res" => c.rc}, d \in Durs }
     ELSE {}
@@ -193,13 +222,15 @@ RClassify(c, s) ==
 Success(c, s) ==
     IF s.pc = "succ" THEN
         { <<EvEmit("success", s.att, 0, "-", FALSE, "-", "-", None, c.opname, s.now),
-            [s EXCEPT !.pc = "deliver", !.dkind = "ok"]>> }
+            ViaEnd(c, [s EXCEPT !.dkind = "ok"], "success", "-", "-", None, "deliver")>> }
     ELSE {}
 
 PollFail(c, s) ==
     IF s.pc = "pollfail" THEN
         { <<EvPoll("fail", a, s.now),
-            IF a THEN [s EXCEPT !.pc = "abortemit", !.abn = s.att]
+            IF a THEN [s EXCEPT !.pc = "abortemit", !.abn = s.att, !.absrc = "fail",
+                                \* execute(): attempt_state.cause is still unset on the result path
+                                !.acause = IF s.ccause = "result" THEN "-" ELSE s.ccause]
                  ELSE [s EXCEPT !.pc = IF s.ccause = "exception" THEN "classify" ELSE "handle"]>>
           : a \in BOOLEAN }
     ELSE {}
@@ -218,7 +249,8 @@ Handle(c, s) ==
         IN  IF hard # "-" THEN
                 { <<EvEmit(StopEvent(hard), s.att, 0, k, Err(s.ccause), hard, s.ccause, None,
                            c.opname, s.now),
-                    [s1 EXCEPT !.pc = "deliver", !.dkind = "stop", !.stop = hard]>> }
+                    ViaEnd(c, [s1 EXCEPT !.dkind = "stop", !.stop = hard], "raise", hard, s.ccause, None,
+                           "deliver")>> }
             ELSE
                 LET which == StrategyFor(c, k)
                     rem   == c.D - s1.now
@@ -246,7 +278,8 @@ BudgetStop(c, s) ==
     IF s.pc = "budgetstop" THEN
         { <<EvEmit("budget_exhausted", s.att, 0, s.lk, Err(s.lcause), "BUDGET_EXHAUSTED",
                    s.lcause, None, c.opname, s.now),
-            [s EXCEPT !.pc = "deliver", !.dkind = "stop", !.stop = "BUDGET_EXHAUSTED"]>> }
+            ViaEnd(c, [s EXCEPT !.dkind = "stop", !.stop = "BUDGET_EXHAUSTED"], "raise",
+                   "BUDGET_EXHAUSTED", s.ccause, None, "deliver")>> }
     ELSE {}
 
 RetryEmit(c, s) ==
@@ -261,7 +294,7 @@ RetryEmit(c, s) ==
 PollRetry(c, s) ==
     IF s.pc = "pollretry" THEN
         { <<EvPoll("retry", a, s.now),
-            IF a THEN [s EXCEPT !.pc = "abortemit", !.abn = s.att]
+            IF a THEN [s EXCEPT !.pc = "abortemit", !.abn = s.att, !.absrc = "retry", !.acause = s.ccause]
                  ELSE [s EXCEPT !.pc = IF c.handler THEN "handler"
                                        ELSE IF c.bsleep THEN "bsleep" ELSE "sleep"]>>
           : a \in BOOLEAN }
@@ -272,7 +305,7 @@ Handler(c, s) ==
         { <<EvHandler(s.att, s.sl, d, s.now),
             CASE d = "sleep" -> [s EXCEPT !.pc = IF c.bsleep THEN "bsleep" ELSE "sleep"]
               [] d = "defer" -> [s EXCEPT !.pc = "schedemit"]
-              [] d = "abort" -> [s EXCEPT !.pc = "abortemit", !.abn = s.att]>> : d \in Decs }
+              [] d = "abort" -> [s EXCEPT !.pc = "abortemit", !.abn = s.att, !.absrc = "handler"]>> : d \in Decs }
     ELSE {}
 
 \* _call_before_sleep: `except Exception: pass` - ordinary errors are swallowed,
@@ -291,27 +324,37 @@ Sleep(c, s) ==
             LET t1 == s.now + Advance(a, s.sl) IN
             IF a \in SleepFaults THEN [s EXCEPT !.pc = "deliver", !.dkind = "cancelsleep"]
             ELSE IF t1 > c.D THEN [s EXCEPT !.now = t1, !.pc = "dlemit"]
-                             ELSE [s EXCEPT !.now = t1, !.pc = "top", !.att = @ + 1]>> : a \in Advs }
+                 ELSE IF c.hooks THEN ViaEnd(c, [s EXCEPT !.now = t1], "retry", "-", s.ccause, s.sl, "top")
+                 ELSE [s EXCEPT !.now = t1, !.pc = "top", !.att = @ + 1]>> : a \in Advs }
     ELSE {}
 
 DeadlineEmit(c, s) ==
     IF s.pc = "dlemit" THEN
         { <<EvEmit("deadline_exceeded", s.att, 0, s.lk, Err(s.lcause), "DEADLINE_EXCEEDED",
                    s.lcause, None, c.opname, s.now),
-            [s EXCEPT !.pc = "deliver", !.dkind = "stop", !.stop = "DEADLINE_EXCEEDED"]>> }
+            ViaEnd(c, [s EXCEPT !.dkind = "stop", !.stop = "DEADLINE_EXCEEDED"], "raise",
+                   "DEADLINE_EXCEEDED", s.ccause, None, "deliver")>> }
     ELSE {}
 
 SchedEmit(c, s) ==
     IF s.pc = "schedemit" THEN
         { <<EvEmit("scheduled", s.att, s.sl, s.lk, Err(s.lcause), "SCHEDULED", s.lcause, None,
                    c.opname, s.now),
-            [s EXCEPT !.pc = "deliver", !.dkind = "stop", !.stop = "SCHEDULED"]>> }
+            ViaEnd(c, [s EXCEPT !.dkind = "stop", !.stop = "SCHEDULED"], "scheduled", "SCHEDULED",
+                   s.ccause, s.sl, "deliver")>> }
     ELSE {}
 
 AbortEmit(c, s) ==
     IF s.pc = "abortemit" THEN
         { <<EvEmit("aborted", s.abn, 0, "-", FALSE, "ABORTED", "-", None, c.opname, s.now),
-            [s EXCEPT !.pc = "deliver", !.dkind = "abort", !.stop = "ABORTED"]>> }
+            LET s1 == [s EXCEPT !.dkind = "abort", !.stop = "ABORTED"] IN
+            \* sleep-handler ABORT: the outcome goes through on_attempt_end in both styles;
+            \* abort_if after a failure: only execute() calls on_attempt_end (call() lets the
+            \* AbortRetryError propagate from inside its except block)
+            IF s.absrc = "handler" THEN ViaEnd(c, s1, "aborted", "ABORTED", s.ccause, None, "deliver")
+            ELSE IF s.absrc \in {"fail", "retry"} /\ s.mode = "exec"
+                 THEN ViaEnd(c, s1, "aborted", "ABORTED", s.acause, None, "deliver")
+            ELSE [s1 EXCEPT !.pc = "deliver"]>> }
     ELSE {}
 
 \* max_attempts = 0: the loop body never runs (emit_max_attempts_exceeded)
@@ -383,11 +426,12 @@ Related(callv, execv) ==
 
 Deliver(c, s) ==
     IF s.pc = "deliver" THEN
+        LET ms == IF s.mode = "-" THEN Modes ELSE {s.mode} IN
         IF s.run < NRuns
         THEN { <<EvDeliver(m, IF m = "call" THEN CallView(s) ELSE ExecView(s), s.now, g),
-                 SNewRun(c, s, g)>> : m \in Modes, g \in RunGaps }
+                 SNewRun(c, s, g)>> : m \in ms, g \in RunGaps }
         ELSE { <<EvDeliver(m, IF m = "call" THEN CallView(s) ELSE ExecView(s), s.now, 0),
-                 [s EXCEPT !.pc = "done"]>> : m \in Modes }
+                 [s EXCEPT !.pc = "done"]>> : m \in ms }
     ELSE {}
 
 MStep(c, s) ==
@@ -395,5 +439,5 @@ MStep(c, s) ==
     \cup Classify(c, s) \cup Handle(c, s) \cup Consume(c, s) \cup BudgetStop(c, s)
     \cup RetryEmit(c, s) \cup PollRetry(c, s) \cup Handler(c, s) \cup BSleep(c, s)
     \cup Sleep(c, s) \cup DeadlineEmit(c, s) \cup SchedEmit(c, s) \cup AbortEmit(c, s)
-    \cup ZeroExhausted(c, s) \cup Deliver(c, s)
+    \cup ZeroExhausted(c, s) \cup Deliver(c, s) \cup AStart(c, s) \cup AEnd(c, s)
 =============================================================================
